@@ -483,6 +483,12 @@ func (x *Exec) specCall(c *SpecCtx, e *Expr) (*Val, error) {
 			return nil, err
 		}
 		return intVal(mk("div", SInt, tArith("-", as[0].T, x.timeEpoch()), intLit(1000000000))), nil
+	case "unixNanoOf":
+		as, err := evalArgs()
+		if err != nil {
+			return nil, err
+		}
+		return intVal(tArith("-", as[0].T, x.timeEpoch())), nil
 	case "hexOf":
 		as, err := evalArgs()
 		if err != nil {
